@@ -123,6 +123,18 @@ def check_code(code):
             bf.scfg.restructure()
         except Exception:
             pass  # C02's business
+    # the two steps of from_bytecode called separately, the flow-information object asked for its blocks twice
+    try:
+        from numba_scfg.core.datastructures.flow_info import FlowInfo
+
+        fi = FlowInfo.from_bytecode(dis.Bytecode(code))
+        builds = [fi.build_basicblocks(), fi.build_basicblocks()]
+    except Exception as e:
+        raise V(f"B-rebuild-raise:{type(e).__name__}", f"FlowInfo.from_bytecode + build_basicblocks twice raised {type(e).__name__}: {e}")
+    for k, g_ in enumerate(builds):
+        sn = [(b.name, type(b).__name__, getattr(b, "begin", None), getattr(b, "end", None), tuple(b._jump_targets), tuple(b.backedges)) for b in sorted(g_.graph.values(), key=lambda b: (getattr(b, "begin", -1), b.name))]
+        if sn != snap:
+            raise V("B-rebuild", f"build_basicblocks call #{k + 1} on one FlowInfo object gives a graph that differs from ByteFlow.from_bytecode's ({len(sn)} vs {len(snap)} blocks)")
     try:
         bf2 = ByteFlow.from_bytecode(code)
     except Exception as e:
